@@ -22,7 +22,7 @@ BOUND = [b"9223372036854775807", b"9223372036854775808", b"-9223372036854775808"
          b"0x1p-1074", b"0x1p-1075", b"0x1.fffffffffffffp1023", b"0x1p1024", b"9007199254740993", b"9007199254740992.5",
          b"0.1", b"1e23", b"8.5e-1", b"123456789012345678901234567890", b"0.000001", b"1e", b"1e+", b"1.e1", b".e1", b"0x", b"0b", b"0x.p1",
          b"0x1p", b"inf", b"nan", b"-inf", b"infinity", b"NAN", b"nan(1)", b"true", b"TRUE", b"yes", b"On", b"off", b"NO", b"fAlSe", b"t", b"1", b"0", b"",
-         b"truee", b" true", b"0b102", b"0x1g", b"08", b"018", b"00", b"0-5", b"0x-5", b"0x0x5", b"0X1F", b"0B11", b"1_000", b"1,5", "\uff11".encode("utf8")]
+         b"truee", b" true", b"0b102", b"0x1g", b"08", b"018", b"00", b"0-5", b"0x-5", b"0x0x5", b"0X1F", b"0B11", b"1_000", b"1,5", b"-010", b"+010", b"-0x10", b"+0x1f", b"-0b11", b"-00", b"+0", b"-08", b"+09x", "\uff11".encode("utf8")]
 SIGNPREFIX = re.compile(rb"^[+-]0[0-9A-Za-z]")
 
 
@@ -62,16 +62,12 @@ def generate(rng, tier):
 
 def project(lines, case):
     out = []
-    skip_int = case.meta.get("signprefix")
-    # operations come in a fixed order: int, float, bool per block; drop the int lines in the unspecified zone
     for l in lines:
         if l.startswith("I "):
             continue
         if l.startswith("G "):
             l = "G " + l.split()[-1]
         out.append(l)
-    if skip_int:
-        out = [l for l in out if not (l.startswith("V 0 69 ") or l.startswith("G ") or l.startswith("R "))]
     return out
 
 
@@ -85,7 +81,7 @@ def nontrivial(case, model_lines):
 def stats(case, model_lines):
     s = {"errno_%d" % case.meta.get("errno", 0): 1}
     if case.meta.get("signprefix"):
-        s["unspecified_not_compared_int"] = 1
+        s["sign_then_radix_prefix"] = 1      # -010, +0x1f ...: decimal or invalid since fix F36
     acc = sum(1 for l in model_lines if l == "R 0")
     s["accepted_conversions"] = acc
     s["rejected_conversions"] = sum(1 for l in model_lines if l in ("R -1", "R 1"))
